@@ -298,6 +298,7 @@ func (ff FeatureSlice) Insert(f Feature) FeatureSlice {
 		})
 	}
 
+	ff = append(make(FeatureSlice, 0, len(ff)+1), ff...)
 	ff = append(ff, Feature{})
 	copy(ff[i+1:], ff[i:])
 	ff[i] = f
